@@ -227,8 +227,21 @@ func (g *gRetryRoute) proto() *v3routepb.Route {
 		ra.ClusterSpecifier = &v3routepb.RouteAction_Cluster{Cluster: g.Clusters[0]}
 	} else {
 		wc := &v3routepb.WeightedCluster{}
-		for _, cl := range g.Clusters {
-			wc.Clusters = append(wc.Clusters, &v3routepb.WeightedCluster_ClusterWeight{Name: cl, Weight: wrapperspb.UInt32(50)})
+		for k, cl := range g.Clusters {
+			// a traffic split in any state: 50/50, fully shifted (the second cluster at weight 0), or without a weight at all -
+			// a destination the table names is a destination, whatever share it currently gets
+			var wgt *wrapperspb.UInt32Value
+			switch (len(cl) + g.NumRetries + g.PerTryMs) % 3 {
+			case 0:
+				wgt = wrapperspb.UInt32(50)
+			case 1:
+				if k == 0 {
+					wgt = wrapperspb.UInt32(100)
+				} else {
+					wgt = wrapperspb.UInt32(0)
+				}
+			}
+			wc.Clusters = append(wc.Clusters, &v3routepb.WeightedCluster_ClusterWeight{Name: cl, Weight: wgt})
 		}
 		ra.ClusterSpecifier = &v3routepb.RouteAction_WeightedClusters{WeightedClusters: wc}
 	}
